@@ -55,12 +55,43 @@ def _extras(B, N, A, S, i):
     return [t.NewType(f"NA{i}", A), t.NewType(f"NS{i}", S), t.NewType(f"NN{i}", N), t.TypeAliasType(f"AN{i}", N), t.Final[N]]
 
 
+_T = t.TypeVar("_T")
+
+
+class GBox(t.Generic[_T]):  # a user generic, used bare as a key
+    pass
+
+
+N4 = t.NewType("N4", GBox)
+type A4 = GBox
+type S4 = "GBox"
+F4 = t.Final[GBox]
+R4 = t.ForwardRef("GBox", module=__name__, is_class=True)
+
+# a family whose classes live in a module that is *not* registered in sys.modules (plug-in loaders, exec'd code)
+import types as _types  # noqa: E402
+
+_UNREG = _types.ModuleType("vlib_c16_unregistered")
+exec(  # noqa: S102
+    "import typing as t\n"
+    "class U5:\n    pass\n"
+    "N5 = t.NewType('N5', U5)\n"
+    "A5 = t.TypeAliasType('A5', U5)\n"
+    "S5 = t.TypeAliasType('S5', 'U5')\n"
+    "F5 = t.Final[U5]\n"
+    "R5 = t.ForwardRef('U5', module=__name__, is_class=True)\n",
+    _UNREG.__dict__,
+)
+U5, N5, A5, S5, F5, R5 = (_UNREG.__dict__[k] for k in ("U5", "N5", "A5", "S5", "F5", "R5"))
+
 # index: 0 itself, 1 NewType, 2 alias, 3 string alias, 4 Final, 5 ForwardRef, 6.. two-layer keys (lookup only)
 FAMILIES = [
     [B0, N0, A0, S0, F0, R0] + _extras(B0, N0, A0, S0, 0),
     [B1, N1, A1, S1, F1, R1] + _extras(B1, N1, A1, S1, 1),
     [B2, N2, A2, S2, F2, R2] + _extras(B2, N2, A2, S2, 2),
     [Order.Item, N3, A3, S3, F3, R3] + _extras(Order.Item, N3, A3, S3, 3),
+    [GBox, N4, A4, S4, F4, R4] + _extras(GBox, N4, A4, S4, 4),
+    [U5, N5, A5, S5, F5, R5] + _extras(U5, N5, A5, S5, 5),
 ]
 # The reference semantics, written down here and nowhere derived from typelib:
 # what each key unwraps to (index within its family; None = it is its own unwrapped form / not unwrappable)
